@@ -37,3 +37,12 @@ CASES += [
     {"name": "full exciton model: inter-band branch never taken", "kind": "mutant", "rule": "C10-C", "edits": [
         (A, "                elif (numpy.abs(es1.band - es2.band) == 2) and full:", "                elif (numpy.abs(es1.band - es2.band) == 2) and full and False:", 1)]},
 ]
+
+CASES += [
+    {"name": "operator basis reduced to the size of the old table", "kind": "mutant", "rule": "C10-C", "edits": [
+        ("quantarhei/qm/oscillators/ho.py", "    def __init__(self, N=100):", "    def __init__(self, N=20):", 1)]},
+    {"name": "overlap table cut at twenty levels again (the repaired defect)", "kind": "mutant", "rule": "C10-C", "edits": [
+        ("quantarhei/builders/aggregate_base.py", "                fc = self.ops.shift_operator(shft)\n", "                fc = self.ops.shift_operator(shft)[:20,:20]\n", 1)]},
+    {"name": "aggregate asks for a larger operator basis explicitly", "kind": "twin", "edits": [
+        ("quantarhei/builders/aggregate_base.py", "        self.ops = operator_factory()", "        self.ops = operator_factory(N=120)", 1)]},
+]
